@@ -205,6 +205,9 @@ class Report:
             print(f"VIOLATION property={self.pid} replay={v['replay']}")
             print(f"  {v['what']}")
             code = 1
+        if self.unreproduced and os.environ.get("VERIF_VERBOSE"):
+            for u in self.unreproduced:
+                print("UNREPRODUCED:", json.dumps(u, default=str)[:1500], file=sys.stderr)
         if self.unreproduced:
             self.harness_errors.append(
                 f"{len(self.unreproduced)} counterexample(s) did not reproduce on the untouched package: "
